@@ -142,11 +142,16 @@ pub fn lex(source: &str, source_filename: &str) -> Vec<LexedToken>
 {
 	let mut tokens = Vec::new();
 	let mut offset = 0;
+	let mut end_of_previous_line = 0;
 	for (i, line) in source.lines().enumerate()
 	{
+		// The line terminator ("\n" or "\r\n") consists of one-byte characters.
+		let start_of_line = line.as_ptr() as usize - source.as_ptr() as usize;
+		offset += start_of_line - end_of_previous_line;
 		// Syntax should remain such that each line can be lexed independently.
 		lex_line(line, source_filename, offset, 1 + i, &mut tokens);
-		offset += line.chars().count() + 1;
+		offset += line.chars().count();
+		end_of_previous_line = start_of_line + line.len();
 	}
 	if source.len() == 0
 	{
